@@ -112,7 +112,7 @@ func runC08(c *Ctx) error {
 	if !c.quick() {
 		iters = 2500
 	}
-	apis := []string{"message", "writev", "async", "broadcast", "file", "ping", "writevasync", "string", "pong"}
+	apis := []string{"message", "writev", "async", "broadcast", "file", "ping", "writevasync", "string", "pong", "broadcast-close-early"}
 	for it := 0; it < iters; it++ {
 		server := it%2 == 0
 		spec := connSpec{Server: server, PMD: it%3 != 0, SrvTO: it%6 < 2, CliTO: it%6 < 2, SrvBits: 11, CliBits: 11, Utf8: true, WLimit: 300000}
@@ -206,6 +206,20 @@ func runC08(c *Ctx) error {
 				}
 			}
 		}()
+		if it%3 == 1 {
+			// a scribbler poisons every pooled buffer that is free: harmless unless a writer still uses a buffer it has released
+			go func() {
+				for {
+					select {
+					case <-stop:
+						return
+					default:
+						scribble(1)
+						time.Sleep(200 * time.Microsecond)
+					}
+				}
+			}()
+		}
 		ok := runWithTimeout(20*time.Second, wg.Wait)
 		close(stop)
 		tag := fmt.Sprintf("schedule it=%d server=%v pmd=%v goroutines=%d calls=%d", it, server, pd.Enabled, ng, len(recs))
@@ -229,9 +243,12 @@ func runC08(c *Ctx) error {
 		}
 		// drop a trailing Close frame (a content-rejected call fails the connection)
 		var dataFrames []frame
+		sawClose := false
 		for _, f := range fs {
 			if f.Opcode != 8 {
 				dataFrames = append(dataFrames, f)
+			} else {
+				sawClose = true
 			}
 		}
 		msgs, problem := groupMessages(dataFrames)
@@ -268,13 +285,16 @@ func runC08(c *Ctx) error {
 				c.oracleFail(fmt.Sprintf("a call rejected for its content put its message on the wire %d time(s), result %d [%s]", n, r.res, tag), "rejected-on-wire", replay)
 			case !rejected && r.res == 0 && n != 1:
 				c.oracleFail(fmt.Sprintf("%s reported success but its message is on the wire %d time(s) [%s]", r.api, n, tag), "success-not-once", replay)
+			case !rejected && r.res == 100 && !sawClose && n != 1:
+				c.oracleFail(fmt.Sprintf("%s returned nil and the connection was never closed, but its message is on the wire %d time(s) [%s]", r.api, n, tag), "broadcast-not-once", replay)
 			case !rejected && r.res != 0 && n > 1:
 				c.oracleFail(fmt.Sprintf("%s failed (%d) but its message is on the wire %d times [%s]", r.api, r.res, n, tag), "failed-duplicated", replay)
 			}
 		}
 		c.count(tag, true, "kind=schedule", fmt.Sprintf("goroutines=%d", ng))
 	}
-	return nil
+	// ---- (c) directed schedule: an asynchronous broadcast job waiting behind a parked writer while its Broadcaster is closed
+	return parkedBroadcastScenario(c)
 }
 
 func minInt(a, b int) int {
@@ -309,9 +329,14 @@ func rawSend(conn *gws.Conn, op sendOp) (res int) {
 		err = waitErr(ch)
 	case "file":
 		err = conn.WriteFile(gws.Opcode(op.Opcode), op.Reader)
-	case "broadcast":
+	case "broadcast", "broadcast-close-early":
 		b := gws.NewBroadcaster(gws.Opcode(op.Opcode), joinSlices(op.Slices))
 		err = b.Broadcast(conn)
+		if op.API == "broadcast-close-early" {
+			// ... or has started and waits for the connection's write lock behind a parked writer
+			time.Sleep([]time.Duration{0, 50 * time.Microsecond, 300 * time.Microsecond, time.Millisecond}[len(op.Slices[0])%4])
+			_ = b.Close() // as documented: after the Broadcast calls have returned - the queued job may still be pending
+		}
 		done := make(chan struct{})
 		conn.Async(func() { close(done) })
 		select {
